@@ -242,6 +242,56 @@ pub fn o04(dir: &str, thorough: bool, seed: u64) {
                     _ => false,
                 };
                 out.oracle(same, "C04", "run with a progress observer differs", &format!("{} {batch:?}", xg.name));
+                // the sanitised extended entry points (batch and single) agree with the raw results after sanitising
+                {
+                    let san_batch = guarded(std::panic::AssertUnwindSafe(|| model_check_multiple_extended_formulae(fs.clone(), &xg.graph, &ctx)));
+                    let raw_batch = guarded(std::panic::AssertUnwindSafe(|| model_check_multiple_extended_formulae_dirty(fs.clone(), &xg.graph, &ctx)));
+                    if let (Ok(Ok(sb)), Ok(Ok(rb))) = (&san_batch, &raw_batch) {
+                        let expect: Vec<GraphColoredVertices> = rb.iter().map(|r| sanitize_colored_vertices(&xg.graph, r)).collect();
+                        out.oracle(*sb == expect, "C04", "sanitised batch entry point differs from sanitised raw results", &format!("{} {batch:?}", xg.name));
+                        for (i, f) in fs.iter().enumerate() {
+                            let single = guarded(std::panic::AssertUnwindSafe(|| model_check_extended_formula(f, &xg.graph, &ctx)));
+                            out.oracle(matches!(&single, Ok(Ok(x)) if *x == expect[i]), "C04",
+                                "sanitised single extended entry point differs from the batch", &format!("{} {f}", xg.name));
+                        }
+                        out.count("entry_points_ext");
+                    }
+                }
+            }
+            // plain formulae: the eight string / tree x single / batch x raw / sanitised entry points agree
+            {
+                let n = 2 + rng.below(2);
+                let plain: Vec<String> = (0..n).map(|_| closed_tree(&mut rng, &xg, false, 2, 6, None).to_string()).collect();
+                let fs: Vec<&str> = plain.iter().map(|x| x.as_str()).collect();
+                let all = guarded(std::panic::AssertUnwindSafe(|| -> Result<bool, String> {
+                    let raw_b = model_check_multiple_formulae_dirty(fs.clone(), &xg.graph)?;
+                    let san_b = model_check_multiple_formulae(fs.clone(), &xg.graph)?;
+                    let trees: Vec<HctlTreeNode> = fs
+                        .iter()
+                        .map(|f| biodivine_hctl_model_checker::preprocessing::parser::parse_and_minimize_hctl_formula(xg.graph.symbolic_context(), f))
+                        .collect::<Result<Vec<_>, String>>()?;
+                    let raw_tb = model_check_multiple_trees_dirty(trees.clone(), &xg.graph)?;
+                    let san_tb = model_check_multiple_trees(trees.clone(), &xg.graph)?;
+                    let mut ok = raw_tb == raw_b && san_tb == san_b;
+                    for (i, f) in fs.iter().enumerate() {
+                        let expect_san = sanitize_colored_vertices(&xg.graph, &raw_b[i]);
+                        ok = ok
+                            && model_check_formula_dirty(f, &xg.graph)? == raw_b[i]
+                            && model_check_tree_dirty(trees[i].clone(), &xg.graph)? == raw_b[i]
+                            && model_check_formula(f, &xg.graph)? == expect_san
+                            && model_check_tree(trees[i].clone(), &xg.graph)? == expect_san
+                            && san_b[i] == expect_san;
+                    }
+                    Ok(ok)
+                }));
+                match all {
+                    Ok(Ok(ok)) => {
+                        out.count("entry_points_plain");
+                        out.oracle(ok, "C04", "the plain entry points (string/tree, single/batch, raw/sanitised) disagree", &format!("{} k={} {plain:?}", xg.name, xg.k));
+                    }
+                    Ok(Err(_)) => out.count("entry_points_plain_unsupported"),
+                    Err(_) => out.oracle(false, "C14", "a plain entry point panicked", &format!("{} {plain:?}", xg.name)),
+                }
             }
         }
     }
